@@ -50,6 +50,9 @@ func optionSet(r *rng.R) gobuild.Options {
 // programText renders all files of a program for reports and replays.
 func programText(p *progs.Program) string {
 	var sb strings.Builder
+	if p == nil {
+		return "(program given by its files in the replay input)"
+	}
 	for _, f := range p.Files {
 		fmt.Fprintf(&sb, "// ---- %s ----\n%s\n", f.Path, f.Render())
 	}
@@ -57,7 +60,7 @@ func programText(p *progs.Program) string {
 }
 
 func dumpProgram(dir, name string, p *progs.Program) {
-	if dir == "" {
+	if dir == "" || p == nil {
 		return
 	}
 	for _, f := range p.Files {
